@@ -23,6 +23,7 @@ from vf.coqlit import cbool, clist, cstr
 
 THEOREMS = ["C09_generated_guard_by_identity", "C09_generated_exposed_callables", "C09_sandbox", "C09_sandbox_any_namespace",
             "C09_allowed_spec", "C09_refuted_name_guard", "C09_hostile1_refused_now", "C09_refuted_helper_reads_dunder",
+            "C09_generated_helpers_refuse_dunder", "C09_helper_dunder_refused_now",
             "C09_trace_nonempty"]
 
 LOG = []
@@ -228,6 +229,27 @@ EXTRA = [
 ]
 
 
+# field_* helpers given field lists with double-underscore names: (expression, the names the helper walks through).  On the
+# canaries every helper returns at the FIRST field it reads (their comparisons / __contains__ answer truthy), so the walk is
+# the first name; later positions are probed on a real record (REAL_HELPER_DUNDER) whose earlier fields do not match.
+HELPER_FIELD_LISTS = [["__class__"], ["a", "__doc__"], ["__dict__", "a"], ["a", "b", "__x", "c"], ["_a", "__"], ["a", "b"], ["___"],
+                      ["__init__", "a_", "__class__"]]
+HELPER_DUNDER = []
+for _fl in HELPER_FIELD_LISTS:
+    HELPER_DUNDER.append(("field_equals(r, %r, ['x'])" % _fl, _fl[:1]))
+    HELPER_DUNDER.append(("field_equals(r, %r, [None], nocase=False)" % _fl, _fl[:1]))
+    HELPER_DUNDER.append(("not field_equals(r, %r, ['x']) or r.q" % _fl, _fl[:1]))
+    HELPER_DUNDER.append(("field_contains(r, %r, ['x'])" % _fl, _fl[:1]))
+    HELPER_DUNDER.append(("any(field_equals(r, %r, [v]) for v in r.a)" % _fl, _fl[:1]))
+REAL_HELPER_DUNDER = [
+    "field_equals(r, ['__doc__'], [None], nocase=False)", "field_equals(r, ['s', '__doc__'], ['nomatch'])",
+    "field_equals(r, ['zz', 's', '__class__'], ['nomatch'])", "field_contains(r, ['s', 'zz', '__module__'], ['nomatch'])",
+    "field_contains(r, ['__dict__'], ['x'])", "field_regex(r, ['s', '__slots__'], 'nomatch')", "field_regex(r, ['__doc__'], '.*')",
+    "field_contains(r, ['s', '__doc__'], ['nomatch'], word_boundary=True)",
+    "any(field_equals(r, [n], ['nomatch']) for n in ['s', '__class__'])",
+]
+
+
 def expressions(ctx):
     out = []
     for (c, _), e in itertools.product(CALL_TARGETS, ENCLOSURES):
@@ -296,8 +318,8 @@ Definition c_truthy (o : obj) : bool :=
   end.
 Definition c_elems (o : obj) : list obj :=
   match o with OSeq l => l | OConst _ | OMissing | OFun _ | OPlain _ | OMod _ | OGenObj => [] | _ => [OElem o 0; OElem o 1] end.
-(* every helper call of the grammar passes the field list ['a'] *)
-Definition c_fields (o : obj) : list string := ["a"].
+(* the helper calls of the grammar pass the field list ['a'] (case_ok); the cases that pass other field lists -- with
+   double-underscore names at every position -- state the list the helper walks through (case_ok_f) *)
 (* path name of an object as the canaries spell it; None for objects that are not canaries *)
 Fixpoint cpath (o : obj) : option string :=
   match o with
@@ -324,13 +346,14 @@ Definition err_code (e : err) : nat := match e with InvalidOperation => 1 | Type
 (* one case: AST, implementation outcome (0 = a value, 1..4 = err_code, 5 = another exception), the canary reads.
    When the model evaluates to a value but the implementation raised something other than InvalidOperation, an operator
    or an allowed callee raised on the canary arguments (outside the model): the reads must then be a prefix. *)
-Definition case_ok (n : node) (impl : nat) (impl_reads : list (string * string)) : bool :=
-  let '(r, (_, evs)) := eval sandbox_facts c_truthy c_elems c_fields 40 (ns0 sandbox_facts, []) n in
+Definition case_ok_f (fs : list string) (n : node) (impl : nat) (impl_reads : list (string * string)) : bool :=
+  let '(r, (_, evs)) := eval sandbox_facts c_truthy c_elems (fun _ => fs) 40 (ns0 sandbox_facts, []) n in
   match r with
   | Ok _ => if Nat.eqb impl 0 then reads_eqb (canary_reads evs) impl_reads
             else negb (Nat.eqb impl 1) && reads_prefix impl_reads (canary_reads evs)
   | Err e => Nat.eqb (err_code e) impl && reads_eqb (canary_reads evs) impl_reads
   end.
+Definition case_ok := case_ok_f ["a"].
 """
 
 
@@ -338,7 +361,8 @@ def explore(ctx, report=True):
     load_tables()
     kf = {f["id"]: f for f in core.known_for("C09")}
     terms, metas = [], []
-    for expr in expressions(ctx):
+    field_lists = {e: fl for e, fl in HELPER_DUNDER}
+    for expr in expressions(ctx) + [e for e, _ in HELPER_DUNDER]:
         out, log = run_impl(expr)
         if out is None:
             continue
@@ -363,27 +387,31 @@ def explore(ctx, report=True):
             return None, None, True
         reads = [(e[1], e[2]) for e in log if e[0] == "getattr"]
         code = {"Ok": 0, "InvalidOperation": 1, "TypeErr": 2, "KeyErr": 3, "AttrErr": 4}.get(out, 5)
-        terms.append("(case_ok %s %d %s)" % (to_node(tree), code, clist(["(%s, %s)" % (cstr(p), cstr(n)) for p, n in reads])))
+        head = "case_ok" if expr not in field_lists else "case_ok_f %s" % clist([cstr(x) for x in field_lists[expr]])
+        terms.append("(%s %s %d %s)" % (head, to_node(tree), code, clist(["(%s, %s)" % (cstr(p), cstr(n)) for p, n in reads])))
         metas.append(dict(expr=expr, outcome=out, reads=reads))
-    # helper-mediated dunder reads (known finding): replay on a real record
+    # helper-mediated dunder reads on a real record whose earlier fields do not match: every one must be refused
     from flow.record import RecordDescriptor
-    from flow.record.selector import Selector
+    from flow.record.selector import InvalidOperation, Selector
     D = RecordDescriptor("probe/c09", [("string", "s")])
     r = D(s="x")
     before = repr(r._pack())
-    try:
-        res = Selector("field_equals(r, ['__doc__'], [None], nocase=False)").match(r)
-        reproduced = res is True
-    except Exception:  # noqa
-        reproduced = False
-    ctx.count_case("helper-dunder")
-    if reproduced:
-        if "C09-helper-reads-dunder" in kf:
-            ctx.known_finding("C09-helper-reads-dunder", kf["C09-helper-reads-dunder"]["what"])
-        elif report:
-            ctx.violation("field_equals(r, ['__doc__'], [None], nocase=False) reads a dunder attribute of the record through a helper",
-                          dict(kind="helper-dunder"))
-            return None, None, True
+    for expr in REAL_HELPER_DUNDER:
+        try:
+            res = Selector(expr).match(r)
+            outcome = "returned %r" % (res,)
+        except InvalidOperation:
+            outcome = None
+        except Exception as e:  # noqa
+            outcome = "raised %s: %s" % (type(e).__name__, e)
+        ctx.count_case(("helper-dunder", expr))
+        if outcome is not None:
+            if "C09-helper-reads-dunder" in kf:
+                ctx.known_finding("C09-helper-reads-dunder", kf["C09-helper-reads-dunder"]["what"])
+            elif report:
+                ctx.violation("%s %s: a whitelisted helper read a double-underscore attribute of the record instead of refusing it" % (expr, outcome),
+                              dict(kind="helper-dunder", expr=expr, outcome=outcome))
+                return None, None, True
     # evaluation never modifies a real record
     for expr in ["upper(r.s) == 'X'", "any(c == 'x' for c in r.s)", "r.s in ['x']", "field_contains(r, ['s'], ['x'])",
                  "string('x') == r.s", "str(r) == ''", "repr(r.s) == 'x'", "len(names(r)) == 1" if False else "name(r) == 'probe/c09'"]:
